@@ -489,7 +489,14 @@ def n_entropy_calls(sizes):
 
 
 def mk(build, key, spec, sizes, kind):
-    body = '%d %s %s' % (key, spec, ','.join(map(str, sizes)) if sizes else '-')
+    lens = ','.join(map(str, sizes)) if sizes else '-'
+    # In every third history with at least two requests the last one or two are made
+    # from an exit handler that was registered before the generator's first use (it
+    # runs after anything the generator registered for exit): written `a,b|c,d`.
+    if len(sizes) >= 2 and (key + len(sizes)) % 3 == 0:
+        k = 1 + (key % 2 if len(sizes) >= 3 else 0)
+        lens = ','.join(map(str, sizes[:-k])) + '|' + ','.join(map(str, sizes[-k:]))
+    body = '%d %s %s' % (key, spec, lens)
     return {'kind': kind, 'body': body, 'expect': '', 'nt': any(sizes),
             'sig': zlib.crc32(('%s %s' % (build, body)).encode()),
             'meta': {'build': build}}
@@ -619,7 +626,9 @@ def make_judge(st):
     def judge(c, ans):
         t = c['line'].split()
         path, key = t[1], int(t[2])
-        sizes = [] if t[4] == '-' else [int(x) for x in t[4].split(',')]
+        sizes = [] if t[4] == '-' else [int(x) for x in t[4].replace('|', ',').split(',')]
+        if '|' in t[4]:
+            st['histories_ending_in_an_exit_handler'] = st.get('histories_ending_in_an_exit_handler', 0) + 1
         build = c['meta']['build']
         try:
             with open(path, 'rb') as f:
